@@ -10,5 +10,5 @@ CONSTANTS
   Variant = "ok"
   Emit = TRUE
 INVARIANTS
-  ConKKT ConFullRank ConExact ConGradRow ConGradNull ConMultiplier ConMin EmitRec
+  ConKKT ConFullRank ConExact ConGradRow ConGradNull ConMultiplier ConMin ConRowScale ConKExp EmitRec
 CHECK_DEADLOCK FALSE
